@@ -271,7 +271,7 @@ fn split_leaf<V: ImageView<Pixel = U16>>(v: &V, a: &SplitArgs) -> Value {
     macro_rules! go {
         ($res:expr) => {
             match $res {
-                None => json!("none"),
+                None => json!([]),
                 Some(parts) => json!(parts.iter().map(|p| view_tags(p)).collect::<Vec<Value>>()),
             }
         };
@@ -287,7 +287,7 @@ fn split_ro<V: ImageView<Pixel = U16>>(v: &V, a: &SplitArgs, second: Option<(&Sp
     macro_rules! go {
         ($res:expr) => {
             match $res {
-                None => json!("none"),
+                None => json!([]),
                 Some(parts) => {
                     let mut arr = vec![];
                     for (i, p) in parts.iter().enumerate() {
@@ -324,7 +324,7 @@ fn split_mut<V: ImageViewMut<Pixel = U16>>(v: &mut V, a: &SplitArgs) -> Value {
     macro_rules! go {
         ($res:expr) => {
             match $res {
-                None => json!("none"),
+                None => json!([]),
                 Some(mut parts) => {
                     let mut arr = vec![];
                     for (i, p) in parts.iter_mut().enumerate() {
@@ -351,7 +351,7 @@ fn split_mut2<V: ImageViewMut<Pixel = U16>>(v: &mut V, a: &SplitArgs, a2: &Split
             macro_rules! go2 {
                 ($res:expr) => {
                     match $res {
-                        None => json!("none"),
+                        None => json!([]),
                         Some(mut parts) => {
                             let mut arr = vec![];
                             for (j, q) in parts.iter_mut().enumerate() {
@@ -373,14 +373,14 @@ fn split_mut2<V: ImageViewMut<Pixel = U16>>(v: &mut V, a: &SplitArgs, a2: &Split
     macro_rules! go {
         ($res:expr) => {
             match $res {
-                None => json!("none"),
+                None => json!([]),
                 Some(mut parts) => {
                     let mut arr = vec![];
                     for (i, p) in parts.iter_mut().enumerate() {
                         let mut o = view_tags(p);
                         if which == i {
                             let sub = inner!(p);
-                            if sub == json!("none") {
+                            if sub == json!([]) {
                                 fill(p, 50000 + i as u16);
                             }
                             o["sub"] = sub;
